@@ -22,7 +22,8 @@ Clauses(r) ==
     <<"exactly_once", r.ended => M(r.strategy)!ExactlyOnce(o, r.lens)>>,
     <<"sequential_is_concatenation", r.strategy = "sequential" => M(r.strategy)!IsPrefixOf(o, M(r.strategy)!Concat(r.lens))>>,
     <<"interleaved_is_round_robin", r.strategy = "interleaved" => M(r.strategy)!IsPrefixOf(o, M(r.strategy)!RoundRobin(r.lens))>>,
-    <<"reproducible_from_seed", r.out = r.out2>>
+    <<"reproducible_from_seed", r.out = r.out2>>,
+    <<"reported_length_is_total", r.reported_len = M(r.strategy)!Total(r.lens)>>
     >>
 
 Judge(r) ==
